@@ -21,7 +21,24 @@ RULE = (
     "indicator with equal settings; non-trivial = (>=2 members or >=2 timeframes) and every compared member has a non-None reading"
 )
 FLOORS = {"form:settings": (0.2, None), "mixed_timeframes": (0.35, None), "ha": (0.1, None)}
-MEMBER_TFS = {None: (None, None, "T5", "T10", "H1"), "T5": (None, None, "T10", "T15", "H1"), "T1": (None, "T5", "T10")}
+MEMBER_TFS = {None: (None, None, "T5", "T10", "H1", "t5", "enum:MINUTE10"), "T5": (None, None, "T5", "T10", "T15", "H1", "t10", "t5"), "T1": (None, "T1", "T5", "T10", "t5", "enum:MINUTE5")}
+
+
+def _tf_arg(tf):
+    """a member timeframe as the user may spell it: 'T5', 't5' or the TimeFrame enum"""
+    if tf and tf.startswith("enum:"):
+        from hexital import TimeFrame
+
+        return getattr(TimeFrame, tf[5:])
+    return tf
+
+
+def _tf_norm(tf):
+    if tf and tf.startswith("enum:"):
+        from hexital import TimeFrame
+
+        return getattr(TimeFrame, tf[5:]).value
+    return tf.upper() if tf else tf
 
 
 def _map_key(cfg):
@@ -63,7 +80,7 @@ def cases(draw, max_n=70):
 def _as_form(member):
     """-> what is handed to Hexital for this member, or a Violation for a failed settings round trip"""
     cfg, tf, form = member["cfg"], member["tf"], member["form"]
-    extra = {"timeframe": tf} if tf else {}
+    extra = {"timeframe": _tf_arg(tf)} if tf else {}
     if form == "object":
         return build_indicator(cfg, **extra)
     if form == "dict":
@@ -88,7 +105,7 @@ def run_case(case) -> Result:
     labels = ["form:" + m["form"] for m in case["members"]]
     if case["ha"]:
         labels.append("ha")
-    eff_tfs = {m["tf"] or case["tf"] for m in case["members"]}
+    eff_tfs = {_tf_norm(m["tf"]) or case["tf"] for m in case["members"]}
     if len(eff_tfs) >= 2:
         labels.append("mixed_timeframes")
     hx_kw = {}
@@ -107,7 +124,7 @@ def run_case(case) -> Result:
     try:
         for m in case["members"]:
             kw = {}
-            tf = m["tf"] or case["tf"]
+            tf = _tf_norm(m["tf"]) or case["tf"]
             if tf:
                 kw["timeframe"] = tf
                 if case["fill"]:
@@ -154,7 +171,7 @@ def run_case(case) -> Result:
     # duplicates (same name) collapse into one dict entry: compare the survivors by order of first appearance
     seen, pairs = set(), []
     for m, t in zip(case["members"], twins):
-        eff_name = build_indicator(m["cfg"], **({"timeframe": m["tf"]} if m["tf"] else {})).name
+        eff_name = build_indicator(m["cfg"], **({"timeframe": _tf_norm(m["tf"])} if m["tf"] else {})).name
         if eff_name in seen:
             continue
         seen.add(eff_name)
@@ -167,14 +184,22 @@ def run_case(case) -> Result:
         where = f"{gc.subject_of(m['cfg'])} given as {m['form']}, member tf {m['tf']}, hexital tf {case['tf']} fill {case['fill']} ha {case['ha']} lifespan {case['lifespan']}"
         # a member given with a (later duplicate) differing config keeps the LAST given one; only unique names reach here
         got_c, want_c = snap(ind.candles, readings=False), snap(t.candles, readings=False)
-        if got_c != want_c and case["fill"] and case["tf"] and m["tf"] and not case["ha"] and pre > 0:
+        if got_c != want_c and case["fill"] and case["tf"] and m["tf"] and pre > 0:
             # known mechanism (finding D33): at construction the member's timeframe is collapsed from the
             # Hexital's already collapsed AND gap-filled base candles, later appends are collapsed from raw candles
             from hxv.ref import resample as rr
 
             base = rr.resample(rows[:pre], tf_seconds(case["tf"]), fill=True)
-            defect = rr.resample(rr.resample(base, tf_seconds(m["tf"]), fill=True) + [list(r) for r in rest], tf_seconds(m["tf"]), fill=True)
-            if got_c == defect:
+            mtf = tf_seconds(_tf_norm(m["tf"]))
+            defect = rr.resample(rr.resample(base, mtf, fill=True) + [list(r) for r in rest], mtf, fill=True)
+            if case["ha"]:
+                from hxv.ref import heikin
+
+                defect = heikin.heikin_ashi(defect)
+            close = len(got_c) == len(defect) and all(
+                a[0] == b[0] and a[5] == b[5] and all(abs(x - y) <= 1e-9 * max(1.0, abs(x), abs(y)) for x, y in zip(a[1:5], b[1:5])) for a, b in zip(got_c, defect)
+            )
+            if close:
                 k = next((i for i, (a, b) in enumerate(zip(got_c, want_c)) if a != b), min(len(got_c), len(want_c)))
                 viol.append(Violation("member-candles-differ-from-standalone", "nested-timeframe-built-from-gap-filled-base-candles", f"{where}: candle {k}: {got_c[k] if k < len(got_c) else None} vs standalone {want_c[k] if k < len(want_c) else None}", subject))
                 break
@@ -190,7 +215,7 @@ def run_case(case) -> Result:
         if not any(r is not None and r != {} for r in want_r):
             all_read = False
         if m["form"] == "settings":
-            orig = build_indicator(m["cfg"], **({"timeframe": m["tf"]} if m["tf"] else {})).settings
+            orig = build_indicator(m["cfg"], **({"timeframe": _tf_arg(m["tf"])} if m["tf"] else {})).settings
             back = ind.settings
             drop = ("timeframe", "timeframe_fill", "candles_lifespan", "candlestick_type")
             if {k: v for k, v in orig.items() if k not in drop} != {k: v for k, v in back.items() if k not in drop}:
